@@ -817,6 +817,19 @@ class ExprMixin(object):
           yield st, V(INT, x % z3.IntVal(k + 1))
         else:
           raise Unsupported('& with non-mask constant %d' % k)
+    elif isinstance(op, ast.BitOr) and not real:
+      # x | y on unbounded integers: only facts that hold of every pair are assumed -- when one operand is a multiple
+      # of 2^k and the other lies in [0, 2^k) the bits do not overlap and the result is their sum; non-negative
+      # operands give a result between the larger one and the sum
+      r = z3.Int(fresh_name('bitor'))
+      for k in (8, 16, 24, 32):
+        m = z3.IntVal(2 ** k)
+        st.assume(z3.Implies(z3.And(x % m == 0, y >= 0, y < m), r == x + y))
+        st.assume(z3.Implies(z3.And(y % m == 0, x >= 0, x < m), r == x + y))
+      st.assume(z3.Implies(z3.And(x >= 0, y >= 0), z3.And(r >= x, r >= y, r <= x + y)))
+      st.assume(z3.Implies(x == 0, r == y))
+      st.assume(z3.Implies(y == 0, r == x))
+      yield st, V(INT, r)
     else:
       raise Unsupported('binary operator %s' % type(op).__name__)
 
